@@ -8,14 +8,41 @@ import lib
 import real
 
 
+def cached_checker_sequence(w: dict) -> list:
+    """one cached engine, the same request several times, a checker derived from the built-in one whose own verdict follows
+    `w["verdicts"]` (True = no objection): [allowed, effect, reason, challenge] of every evaluation"""
+    from rbacx.core.cache import DefaultInMemoryCache
+    from rbacx.core.engine import Guard
+    from rbacx.core.obligations import BasicObligationChecker
+    state = {"i": 0}
+
+    class Derived(BasicObligationChecker):
+        def check(self, decision, context):
+            ok, ch = super().check(decision, context)
+            mine = w["verdicts"][min(state["i"], len(w["verdicts"]) - 1)]
+            return (ok, ch) if (not ok or mine) else (False, "reauth")
+    g = Guard(w["policy"], cache=DefaultInMemoryCache(), obligation_checker=Derived())
+    s_, a_, r_, c_ = real.make_request(w["request"])
+    out = []
+    for i in range(len(w["verdicts"])):
+        state["i"] = i
+        d = g.evaluate_sync(s_, a_, r_, c_)
+        out.append([d.allowed, d.effect, d.reason, d.challenge])
+    return out
+
+
 def replay_fixed(run: lib.Run, ids: list[str]) -> list[tuple[str, bool]]:
     """returns violations [(replay_path, True)] for every listed fixed finding that reproduces"""
     corpus = json.load(open(os.path.join(lib.VERIF, "corpus", "fixed.json")))
     out = []
     for fid in ids:
         w = corpus[fid]
-        res = real.run_guard(w["policy"], w["request"], w.get("cfg") or {})
-        ok = "ok" in res and all(res["ok"][k] == v for k, v in w["expect"].items())
+        if w.get("kind") == "cached-checker-sequence":
+            res = cached_checker_sequence(w)
+            ok = res == w["expect"]
+        else:
+            res = real.run_guard(w["policy"], w["request"], w.get("cfg") or {})
+            ok = "ok" in res and all(res["ok"][k] == v for k, v in w["expect"].items())
         run.count("fixed-witness:" + ("holds" if ok else "REPRODUCES"))
         if not ok:
             path = run.write_replay(f"fixed_{fid}", {"what": f"repaired defect {fid} is back (see known_findings.json)", "case": {**w, "impl": res}})
